@@ -97,7 +97,14 @@ def unit_id_handler(U):
     scenarios.append(("list.columnlike", lambda: ["score", "strand"], ["score", "strand"], ["score", "strand"]))
     scenarios.append(("list.columnlike.second", lambda: ["seqid", "end"], ["end"], ["seqid", "end"]))
 
-    for name, specf, present, order in scenarios:
+    # 2c. the key of a feature does not depend on the features handled before it: the same call after the handler served a
+    #     feature of the same type that had only the LATER attribute of the list
+    scenarios.append(("list.both.after_second_only", lambda: ["ID", "Name"], ["ID", "Name"], ["ID", "Name"], ["Name"]))
+    scenarios.append(("dictlist.both.after_second_only", lambda: {"gene": ["ID", "Name"]}, ["ID", "Name"], ["ID", "Name"], ["Name"]))
+
+    for sc in scenarios:
+        name, specf, present, order = sc[:4]
+        warm = sc[4] if len(sc) > 4 else None
         attrs, meta = make(present)
         vars_ = {}
         for k, (seq, n, f) in meta.items():
@@ -109,6 +116,11 @@ def unit_id_handler(U):
             feat, fv = IM.sym_feature("f", dict(attrs))
             cnt = IM.SymMap("cnt")
             cr = IM.blank_creator(C._GFFDBCreator, ghostdb.GhostConn(), id_spec=specf(), counters=cnt)
+            if warm:
+                feat.featuretype = "gene"
+                w, _ = IM.sym_feature("w", {k: ["w-" + k] for k in warm})
+                w.featuretype = "gene"
+                it.call(C._DBCreator._id_handler, [cr, w], {})
             r = it.call(C._DBCreator._id_handler, [cr, feat], {})
             return r, feat, cnt
         base = "C04.id_handler[%s]" % name
